@@ -108,6 +108,10 @@ def py_meta(m, rnd=None, rich=False):
     if rich and rnd is not None:
         out['extra'] = rnd.choice([v for v in pool() if not isinstance(v, (bytes, set, tuple)) and
                                    not hasattr(v, '__dict__')][:20])
+        if rnd.random() < 0.25:
+            # values that are not plain JSON: metadata fetched on its own keeps their types as the full recording does
+            out['window'] = (1, 5)
+            out['marks'] = {'since': (2020, 1), 'kinds': [('a', 1)]}
         if rnd.random() < 0.3:
             # the same list / dict object in two places of the metadata (whole-document validation applies)
             shared = rnd.choice([['blue', 'green'], {'sh': [1, 2]}])
